@@ -57,6 +57,21 @@ def e1(ctx, F):
     before, nv = len(ctx.instances), len(ctx.violations)
     p03.set_position_discipline(ctx, F)
     relabel(ctx, before, nv, "C16.E1")
+    # what a square contributes: 0 when empty, the piece's score on that square with the game's current tables otherwise
+    from .common import set_position_summary
+    sp = F.fn("chess::Game::set_position")
+    okc, foundc = False, None
+    try:
+        sm = set_position_summary(F)
+        pos_name = sm["params"][0]
+        yn, ys = sm["None"]["slot_s"], sm["Some"]["slot_s"]
+        foundc = {"empty": hir.fmt(yn, 80) if yn else None, "piece P": hir.fmt(ys, 120) if ys else None}
+        okc = yn == ("lit", 0) and ys == ("call", "chess::piece::Piece::score", (("var", "P"), ("var", pos_name), ("field", ("var", "self"), "piece_scores")))
+    except hir.Unsupported as e:
+        foundc = "not summarisable: %s" % e
+    ctx.check("C16.E1", "square-contribution-is-the-piece-score", okc, fn=sp["path"], file=sp["file"],
+              what="the cached contribution of a square must be 0 when it is empty and piece.score(square, current tables) otherwise",
+              expected="empty -> 0, P -> P.score(position, &self.piece_scores)", found=foundc)
     # Game::score() returns the field
     fn = F.fn("chess::Game::score")
     nf = sym_fn(fn, F)
